@@ -17,6 +17,7 @@ import Cdecao.Model.Rooms
 import Cdecao.Model.Listing
 import Cdecao.Model.Score
 import Cdecao.Model.RoomsInput
+import Cdecao.Model.Main
 /-! Model driver: one request per line (`TAG<TAB>payload`), one answer line per request.
     The harness (Rust, calling the real code) writes the same cases and diffs the answers. -/
 open Lean
@@ -765,6 +766,42 @@ def handleOS (payload : String) : String :=
     let o := CLI.outputStage true (g "print") { requested := true, created := g "created", written := g "written" }
     s!"exit={o.exit} listing={o.listing}"
 
+/-! ## MF: main.rs as a whole — everything before the solver (`MainM.front`) -/
+
+def fileIn (j : Option Json) : MainM.FileIn :=
+  match j with
+  | some (.str "missing") => .cannotOpen
+  | some (.str "notjson") => .notJson
+  | some v =>
+    match v.getObjVal? "doc" with
+    | .ok d => .doc (CDD.untag d)
+    | _ => .cannotOpen
+  | none => .cannotOpen
+
+/-- `MF`: options + environment → `exit=<status>` when the program ends before the solver, else
+    `solver P=<participants> C=<courses> threads=<workers> rooms=<list|none>` -/
+def handleMF (payload : String) : String :=
+  match Json.parse payload with
+  | .error e => s!"bad json {e}"
+  | .ok j =>
+    let b (k : String) := (j.getObjValAs? Bool k).toOption.getD false
+    let st (k : String) := (j.getObjValAs? String k).toOption
+    let o : MainM.Opts :=
+      { cde := b "cde", track := st "track", ignoreCancelled := b "ic", ignoreAssigned := b "ia",
+        factorField := st "rff", offsetField := st "rof", rooms := st "rooms",
+        roomsFile := (j.getObjVal? "roomsfile").toOption.isSome && (j.getObjVal? "roomsfile").toOption != some Json.null,
+        threads := (j.getObjValAs? Nat "threads").toOption, print := b "print", output := b "output" }
+    let e : MainM.Env :=
+      { input := fileIn (j.getObjVal? "input").toOption, roomsFile := fileIn (j.getObjVal? "roomsfile").toOption,
+        cpus := (j.getObjValAs? Nat "cpus").toOption.getD 1 }
+    match MainM.front o e with
+    | .error c => s!"exit={c}"
+    | .ok pb =>
+      let rooms := match pb.rooms with
+        | none => "none"
+        | some l => ",".intercalate (l.map toString)
+      s!"solver P={pb.data.numParts} C={pb.data.numCourses} threads={pb.threads} rooms={rooms}"
+
 /-! ## main loop -/
 
 def dispatch (line : String) : String :=
@@ -794,6 +831,7 @@ def dispatch (line : String) : String :=
     | "SR" => handleSR payload
     | "OS" => handleOS payload
     | "RI" => handleRI payload
+    | "MF" => handleMF payload
     | _ => "bad tag"
   | _ => "bad line"
 
